@@ -38,7 +38,8 @@ structure WDay where
 inductive Err
   | badInterval      -- interval < 1 (dateutil would not terminate; since fix 66ecebf the plugin
                      -- rejects it before the rule is built, see `pluginCheck`)
-  | emptyRule        -- dateutil: "Invalid rrule byxxx generates an empty set."
+  | emptyRule        -- dateutil: "Invalid rrule byxxx generates an empty set." (constructor) or
+                     -- "Invalid combination of interval and byhour resulting in empty rule." (first step)
   | badTime          -- datetime.time(...) rejects an hour/minute/second of the time set
   | outside          -- outside the modelled fragment (byweekno with WEEKLY; n-th weekday with |n| beyond
                      -- what dateutil's masks can index: it raises IndexError or wraps around)
@@ -260,6 +261,26 @@ def constructError (r : Rule) : Bool :=
     | none => false
   | _ => false
 
+/-- dateutil's `_iter` for MINUTELY / SECONDLY: when it steps, it searches one full cycle of the
+    interval lattice (1440 / gcd minutes, resp. 86400 / gcd seconds) for a slot whose hour — for
+    SECONDLY also minute and second — lies in the by-sets, and raises "Invalid combination of
+    interval and byhour … resulting in empty rule" when there is none.  The start's own slot is on
+    that cycle, so the error comes at the first value request, before any value (and before any
+    value of an enclosing `rruleset`, which pulls a first item from each of its parts). -/
+def lazyEmpty (r : Rule) : Bool :=
+  match r.freq with
+  | .minutely =>
+    let hs := r.byhour.getD []
+    !hs.isEmpty &&
+      !(List.range (1440 / Nat.gcd r.interval 1440)).any (fun k =>
+        let t := (r.sSod / 60 + k * r.interval) % 1440
+        hs.contains ((t / 60 : Nat) : Int) && optOk r.byminute (t % 60))
+  | .secondly =>
+    !(List.range (86400 / Nat.gcd r.interval 86400)).any (fun k =>
+      let t := (r.sSod + k * r.interval) % 86400
+      optOk r.byhour (t / 3600) && optOk r.byminute (t % 3600 / 60) && optOk r.bysecond (t % 60))
+  | _ => false
+
 def badTimeValue (r : Rule) : Bool :=
   !r.freq.isSub &&
     ((r.byhour.getD []).any (fun v => v < 0 || v ≥ 24) ||
@@ -298,6 +319,7 @@ def precheck (r : Rule) : Except Err Unit :=
   if r.interval == 0 then .error .badInterval
   else if badTimeValue r then .error .badTime
   else if constructError r then .error .emptyRule
+  else if lazyEmpty r then .error .emptyRule
   else if r.freq == .weekly && !(r.byweekno.getD []).isEmpty then .error .outside
   else if nthOutOfRange r then .error .outside
   else .ok ()
@@ -314,32 +336,38 @@ def occ (r : Rule) (horizonAbs : Int) : Except Err (List Nat) :=
 
 /-- an emitted value: absolute instant and the utcoffset it is expressed in -/
 structure Inst where
-  abs : Int
+  abs : Int          -- whole seconds
   off : Int
+  us : Nat           -- microseconds within the second (rrule values always carry 0)
   deriving DecidableEq, Repr
 
-def Rule.inst (r : Rule) (L : Nat) : Inst := ⟨(L : Int) - r.off, r.off⟩
+/-- the instant at microsecond resolution: what `rruleset` compares -/
+def Inst.key (i : Inst) : Int := i.abs * 1000000 + i.us
+
+/-- `rrule` drops the microseconds of `dtstart` (`dtstart.replace(microsecond=0)`): every value of
+    a rule is on a whole second -/
+def Rule.inst (r : Rule) (L : Nat) : Inst := ⟨(L : Int) - r.off, r.off, 0⟩
 
 /-- drop an element when it has the same instant as the one kept before it -/
 def dedupAdj : List Inst → List Inst
   | [] => []
   | [a] => [a]
-  | a :: b :: t => if a.abs = b.abs then dedupAdj (a :: t) else a :: dedupAdj (b :: t)
+  | a :: b :: t => if a.key = b.key then dedupAdj (a :: t) else a :: dedupAdj (b :: t)
 
 /-- `rruleset`: (rdates ∪ own rrule ∪ included sets) minus (exdates ∪ excluded sets), in
     chronological order, one value per instant -/
 def combine (base rdates exdates : List Inst) (incl excl : List (List Inst)) : List Inst :=
-  let ex := (exdates ++ excl.flatten).map (·.abs)
-  let all := (rdates ++ base ++ incl.flatten).mergeSort (fun a b => a.abs ≤ b.abs)
-  (dedupAdj all).filter (fun i => !ex.contains i.abs)
+  let ex := (exdates ++ excl.flatten).map (·.key)
+  let all := (rdates ++ base ++ incl.flatten).mergeSort (fun a b => a.key ≤ b.key)
+  (dedupAdj all).filter (fun i => !ex.contains i.key)
 
 /-! ### the plugin's normalisation of the recipe keywords -/
 
 /-- a date-like recipe value as the plugin sees it -/
 inductive DateArg
   | date (ord : Nat)                          -- `date` object or a date-looking string
-  | dtObj (ord sod : Nat) (off : Option Int)   -- `datetime` object (YAML timestamp); `none` = naive
-  | dtStr (ord sod : Nat) (off : Option Int)   -- datetime-looking string
+  | dtObj (ord sod us : Nat) (off : Option Int)   -- `datetime` object (YAML timestamp) with its microseconds; `none` = naive
+  | dtStr (ord sod us : Nat) (off : Option Int)   -- datetime-looking string
   deriving Repr
 
 /-- keyword arguments of `Schedule.Event` / `CalendarRule` -/
@@ -347,6 +375,7 @@ structure Params where
   freq : Freq
   sOrd : Nat
   sSod : Nat
+  sUs : Nat                        -- microseconds of the start (rrule ignores them, the plugin's `start_date` keeps them)
   off : Int
   datePrecision : Bool             -- start given with date precision
   interval : Int                   -- as written in the recipe (may be 0 or negative)
@@ -405,39 +434,42 @@ def Params.intList (p : Params) (name : Kw) : Option (List Int) :=
   | .bysecond => p.bysecond
   | _ => none
 
-/-- `CalendarRule._at_start_time`: a date at the start's time of day, in the start's zone -/
-def atStartTime (sSod : Nat) (off : Int) (d : Nat) : Inst := ⟨(d : Int) * 86400 + sSod - off, off⟩
+/-- `CalendarRule._at_start_time`: a date at the start's time of day — `self.start_date.time()`,
+    *including its microseconds* (D53) — in the start's zone -/
+def atStartTime (sSod sUs : Nat) (off : Int) (d : Nat) : Inst := ⟨(d : Int) * 86400 + sSod - off, off, sUs⟩
 
 /-- `parse_datetimespec` on a datetime (object or string): its own wall clock and zone; a naive
     one means UTC -/
-def parseDatetimespec (d s : Nat) (o : Option Int) : Inst := ⟨(d : Int) * 86400 + s - o.getD 0, o.getD 0⟩
+def parseDatetimespec (d s us : Nat) (o : Option Int) : Inst := ⟨(d : Int) * 86400 + s - o.getD 0, o.getD 0, us⟩
 
 /-- `_normalize_until` (since fix eef84fd): datetime string or `datetime` object →
     `parse_datetimespec`; date string or `date` → `_at_start_time`; then `.astimezone(utc)`, which
     keeps the instant. -/
 def normUntil (sSod : Nat) (off : Int) : DateArg → Int
-  | .date d => (atStartTime sSod off d).abs
-  | .dtObj d s o => (parseDatetimespec d s o).abs
-  | .dtStr d s o => (parseDatetimespec d s o).abs
+  | .date d => (atStartTime sSod 0 off d).abs          -- rule values are on whole seconds: the
+  | .dtObj d s us o => (parseDatetimespec d s us o).abs   -- microseconds of `until` never matter
+  | .dtStr d s us o => (parseDatetimespec d s us o).abs
 
 /-- what the keyword means when read in the start's zone (dates) / its own zone (datetimes) -/
 def intendedUntil (sSod : Nat) (off : Int) : DateArg → Int
   | .date d => (d : Int) * 86400 + sSod - off
-  | .dtObj d s o => (d : Int) * 86400 + s - o.getD 0
-  | .dtStr d s o => (d : Int) * 86400 + s - o.getD 0
+  | .dtObj d s _ o => (d : Int) * 86400 + s - o.getD 0
+  | .dtStr d s _ o => (d : Int) * 86400 + s - o.getD 0
 
 /-- `_process_special_cases` for one date-like `include` / `exclude` entry (since fix eef84fd):
     `datetime` → `parse_datetimespec` (naive = UTC); `date` → `_at_start_time`; string →
     `_at_start_time(parse_date(str))` (the date part only).  Never fails. -/
-def normDateArg (sSod : Nat) (off : Int) : DateArg → Option Inst
-  | .date d => some (atStartTime sSod off d)
-  | .dtObj d s o => some (parseDatetimespec d s o)
-  | .dtStr d _ _ => some (atStartTime sSod off d)
+def normDateArg (sSod sUs : Nat) (off : Int) : DateArg → Option Inst
+  | .date d => some (atStartTime sSod sUs off d)
+  | .dtObj d s us o => some (parseDatetimespec d s us o)
+  | .dtStr d _ _ _ => some (atStartTime sSod sUs off d)
 
+/-- what the entry means: a date is *the occurrence of that date*, i.e. the start's time of day as
+    the rule emits it (whole seconds) in the start's zone; a datetime is the instant it says -/
 def intendedDateArg (sSod : Nat) (off : Int) : DateArg → Option Inst
-  | .date d => some ⟨(d : Int) * 86400 + sSod - off, off⟩
-  | .dtObj d s o => some ⟨(d : Int) * 86400 + s - o.getD 0, o.getD 0⟩   -- naive read as UTC, like the start
-  | .dtStr d _ _ => some ⟨(d : Int) * 86400 + sSod - off, off⟩
+  | .date d => some ⟨(d : Int) * 86400 + sSod - off, off, 0⟩
+  | .dtObj d s us o => some ⟨(d : Int) * 86400 + s - o.getD 0, o.getD 0, us⟩   -- naive read as UTC, like the start
+  | .dtStr d _ _ _ => some ⟨(d : Int) * 86400 + sSod - off, off, 0⟩
 
 /-- the `rrule(...)` call of `CalendarRule.__init__`, driven by the wiring table -/
 def pluginRule (p : Params) : Rule :=
@@ -556,16 +588,35 @@ def evalMemo {σ : Type} (parts : List KeyPart) (make : Call → σ) (st : Store
   | some v => (v, st)
   | none => (make c, (keyWith parts c, make c) :: st)
 
+/-! #### call sites: where the context identifier comes from
+
+The identifier is the identity of the parsed value object (`str(id(self))` of the
+`StructuredValue` / `SimpleValue`).  The parser makes a new object for every field it parses, and
+`include_macro` parses the macro's fields anew for every template that includes it — so every
+place an Event is written, and every inclusion of a macro that contains one, is its own call site. -/
+
+/-- parse `n` fields: they get the next `n` identities -/
+def parseFields (next n : Nat) : List Nat × Nat := (List.range' next n, next + n)
+
+/-- `include_macro` for a macro with `n` fields, once per including template: no cache, the
+    fields are parsed again each time -/
+def includeMacro (next n : Nat) : Nat → List (List Nat) × Nat
+  | 0 => ([], next)
+  | k + 1 =>
+    let (ids, next') := parseFields next n
+    let (rest, last) := includeMacro next' n k
+    (ids :: rest, last)
+
 /-! ### what a template sees -/
 
 inductive Out
   | date (ord : Int)
-  | datetime (abs off : Int)
+  | datetime (abs off : Int) (us : Nat)
   deriving DecidableEq, Repr
 
 /-- `_next_date` takes `.date()` of the value in the value's own zone; `for_each` iterates the
     rruleset itself and therefore always sees datetimes -/
 def emit (datePrecision viaNext : Bool) (i : Inst) : Out :=
-  if datePrecision && viaNext then .date ((i.abs + i.off) / 86400) else .datetime i.abs i.off
+  if datePrecision && viaNext then .date ((i.abs + i.off) / 86400) else .datetime i.abs i.off i.us
 
 end SnowModel.Rrule
